@@ -15,7 +15,7 @@ def parse_runs(q, t):
             R('parse', 'gasan', thorough=dict(random=t // 8, enum_len=3, enum_ip_len=5), thorough_only=True)]
 
 PARSE_RULE = ("every (context, byte) transition of the 2178-state RFC automaton from BFS and pumped access strings, all strings over the automaton's byte classes up to a length, "
-              "IP-literal enumerations, degenerate component combinations, random automaton walks and structured URIs with mutations; each string through 7 entry-point variants x {char, wchar_t}; "
+              "IP-literal enumerations, degenerate component combinations, random automaton walks and structured URIs with mutations; each string through 8 entry-point variants (one of them: the range inside a longer buffer with a hostile continuation) x {char, wchar_t}; "
               "distinct = distinct input strings that are accepted, or rejected at a non-zero position")
 
 PLANS = {}
